@@ -419,6 +419,7 @@ type nameTrack struct {
 	dupUnchangedReload   bool // an identical list of duplicates was reloaded
 	conn                 net.Conn
 	connGen              int
+	inode                string // listening socket of a visitor at the last settle point
 	neverHealthySinceGen bool
 	attemptsAtGenStart   int
 }
@@ -1004,6 +1005,16 @@ func settleAndJudge(c *h.Case, env *reloadEnv, g *histGen, svc *client.Service, 
 			continue
 		}
 		if t.conn != nil && t.connGen == t.gens {
+			// an established connection survives a restart of its visitor, the listening socket does not
+			if ino := listenInode(vs[0].BindPort); ino != "" && t.inode != "" && ino != t.inode {
+				key := "unchanged-visitor-restarted"
+				if len(vs) > 1 {
+					key = "unchanged-duplicate-name-visitor-restarted"
+				}
+				c.Violation(key, "step %d: visitor %s did not change, but the socket listening on its port %d is another one than before the reload(s) (inode %s -> %s)", stepIdx, n, vs[0].BindPort, t.inode, ino)
+				return false
+			}
+			run.Count("visitor_listeners_unchanged", 1)
 			if err := echoOnce(t.conn); err != nil {
 				key := "unchanged-visitor-connection-interrupted"
 				if len(vs) > 1 {
@@ -1037,6 +1048,7 @@ func settleAndJudge(c *h.Case, env *reloadEnv, g *histGen, svc *client.Service, 
 			return false
 		}
 		t.conn, t.connGen = cn, t.gens
+		t.inode = listenInode(vs[0].BindPort)
 		run.Count("visitor_connections_opened", 1)
 	}
 	return true
@@ -1189,4 +1201,20 @@ func portAccepts(p int) bool {
 	}
 	cn.Close()
 	return true
+}
+
+// listenInode returns the inode of the socket listening on the loopback tcp port ("" = none found).
+func listenInode(port int) string {
+	b, err := os.ReadFile("/proc/net/tcp")
+	if err != nil {
+		return ""
+	}
+	want := fmt.Sprintf("0100007F:%04X", port)
+	for _, ln := range strings.Split(string(b), "\n") {
+		f := strings.Fields(ln)
+		if len(f) >= 10 && f[1] == want && f[3] == "0A" {
+			return f[9]
+		}
+	}
+	return ""
 }
